@@ -317,6 +317,21 @@ func (tr *TemplateRecord) unmarshalOpts(r *reader.Reader) error {
 	return nil
 }
 
+// minRecordLen returns the length in octets of the data records the template describes (at least 1).
+func (tr *TemplateRecord) minRecordLen() int {
+	n := 0
+	for _, f := range tr.ScopeFieldSpecifiers {
+		n += int(f.Length)
+	}
+	for _, f := range tr.FieldSpecifiers {
+		n += int(f.Length)
+	}
+	if n < 1 {
+		n = 1
+	}
+	return n
+}
+
 func (d *Decoder) decodeData(tr TemplateRecord) ([]DecodedField, error) {
 	var (
 		fields []DecodedField
@@ -437,8 +452,13 @@ func (d *Decoder) decodeSet(mem MemCache, msg *Message) error {
 		}
 	}
 
-	// the next set should be greater than 4 bytes otherwise that's padding
-	for err == nil && (int(setHeader.Length)-(d.reader.ReadCount()-startCount) > 4) && d.reader.Len() > 4 {
+	// What is left of a flowset and is shorter than the shortest record the flowset can hold is
+	// padding: 5 octets for template records, the template's record length for data records.
+	minLen := 5
+	if setHeader.FlowSetID > 255 {
+		minLen = tr.minRecordLen()
+	}
+	for err == nil && (int(setHeader.Length)-(d.reader.ReadCount()-startCount) >= minLen) && d.reader.Len() >= minLen {
 		if setId := setHeader.FlowSetID; setId == 0 || setId == 1 {
 			// Template record or template option record
 			tr := TemplateRecord{}
